@@ -93,6 +93,11 @@ var watchdogLimitNs = int64(120 * time.Second)
 
 // callWithWatchdog runs f; verdict "ok", "deadlock" (confirmed), or "inconclusive".
 func callWithWatchdog(f func()) (verdict string, detail string, pv any) {
+	// a few witnesses per process are enough: every blocked call leaves its goroutines behind for good, and a
+	// library that blocks forever must not make the check itself take forever
+	if atomic.LoadInt64(&deadlocksWitnessed) >= 4 {
+		return "inconclusive", "skipped: four deadlocks were already confirmed in this process", nil
+	}
 	done := make(chan struct{})
 	go func() {
 		defer func() {
@@ -103,16 +108,19 @@ func callWithWatchdog(f func()) (verdict string, detail string, pv any) {
 		}()
 		f()
 	}()
-	// after a first confirmed deadlock in this process later calls get a short limit: one witness is enough,
-	// and a library that blocks forever must not make the check itself take forever
+	// after a first confirmed deadlock in this process later calls get a short limit
 	limit := time.Duration(atomic.LoadInt64(&watchdogLimitNs))
+	gap := 5 * time.Second
+	if atomic.LoadInt64(&deadlocksWitnessed) > 0 {
+		gap = 2 * time.Second
+	}
 	select {
 	case <-done:
 		return "ok", "", pv
 	case <-time.After(limit):
 	}
 	d1 := parGoroutines()
-	time.Sleep(5 * time.Second)
+	time.Sleep(gap)
 	select {
 	case <-done:
 		return "inconclusive", "call returned after the watchdog fired (slow machine)", pv
@@ -121,10 +129,13 @@ func callWithWatchdog(f func()) (verdict string, detail string, pv any) {
 	d2 := parGoroutines()
 	if d1 == d2 && d1 != "" && allBlockedOnChannels(d1) {
 		atomic.StoreInt64(&watchdogLimitNs, int64(4*time.Second))
+		atomic.AddInt64(&deadlocksWitnessed, 1)
 		return "deadlock", d1, nil
 	}
 	return "inconclusive", "call still running but not provably blocked:\n" + d2, nil
 }
+
+var deadlocksWitnessed int64
 
 func allStacks() string {
 	buf := make([]byte, 1<<20)
@@ -173,7 +184,14 @@ func allBlockedOnChannels(dump string) bool {
 }
 
 // leakCheck polls for goroutines that are still inside the parallel machinery.
+var leakWitnessed int64
+
 func leakCheck() string {
+	// leaked goroutines stay for good: after the first confirmed leak in this process later polls would all wait the
+	// full 10 s and report the same goroutines again
+	if atomic.LoadInt64(&leakWitnessed) != 0 {
+		return ""
+	}
 	var d string
 	// up to 10 s: on a loaded machine the released workers may take a while to be scheduled and exit
 	for i := 0; i < 2000; i++ {
@@ -191,6 +209,7 @@ func leakCheck() string {
 		}
 		time.Sleep(5 * time.Millisecond)
 	}
+	atomic.StoreInt64(&leakWitnessed, 1)
 	return d
 }
 
@@ -757,7 +776,10 @@ func c12BSI(inner func(c *Ctx)) func(c *Ctx) {
 		if c.Failed() {
 			return
 		}
-		// goroutines of the index still alive after every call returned
+		// goroutines of the index still alive after every call returned (one witness per process: they stay for good)
+		if atomic.LoadInt64(&leakWitnessed) != 0 {
+			return
+		}
 		var leak string
 		for i := 0; i < 2000; i++ {
 			leak = bsiGoroutines()
@@ -768,6 +790,7 @@ func c12BSI(inner func(c *Ctx)) func(c *Ctx) {
 		}
 		c.Eval(1)
 		if leak != "" {
+			atomic.StoreInt64(&leakWitnessed, 1)
 			c.Fail("BSI/goroutine-leak", "goroutines of the bit-sliced index still alive 10 s after the calls returned (GOMAXPROCS=%d):\n%s", procs, firstLines(leak, 30))
 		}
 	}
